@@ -7,7 +7,7 @@ from ..cfg import edge_facts
 from ..loader import AnchorError, is_self_attr, parent, short, src, walk_no_nested
 from ..locks import LockAnalysis, held_at, regions
 from ..resolve import Resolver
-from ..rules import attr_writes, calls_named, cfg_of, guard_facts, mentions_attr, where, in_cycle
+from ..rules import attr_writes, calls_named, cfg_of, dict_key_field, guard_facts, mentions_attr, where, in_cycle
 
 FILES = ["operon_ai/organelles/lysosome.py", "operon_ai/healing/autophagy_daemon.py"]
 Q = "_queue"
@@ -33,9 +33,13 @@ def run(p, led, tier):
     led.rule("C13-R5", "every digester call sits in a per-item try/except Exception; digest records the error; counters only on the success edge", 3)
     led.rule("C13-R6", "the toxic digester returns an empty mapping on every path, calls the toxic callback at most once, and is registered for the toxic type", 3)
 
-    if "_lock" not in la.locks:
-        raise AnchorError("Lysosome has no lock attribute")
-    lock = "_lock"
+    if len(la.locks) != 1:
+        raise AnchorError(f"Lysosome is expected to own exactly one lock attribute; found {sorted(la.locks)}")
+    lock = next(iter(la.locks))
+    Q = dict_key_field(p, lys, "get_statistics", "queue_size")
+    if Q is None:
+        raise AnchorError("Lysosome: the field behind get_statistics()['queue_size'] could not be identified")
+    led.extra["fields"] = dict(queue=Q, lock=lock)
     held_entry = la.held_on_entry(lock)
     led.extra["held_on_entry_helpers"] = sorted(held_entry)
 
@@ -76,207 +80,279 @@ def run(p, led, tier):
         for n in accesses:
             key = f"{m.qual} ▸ {'write' if isinstance(n.ctx, ast.Store) else 'access'} {Q} @{_stmt(n)}"
             if lock in held_at(n, la.locks):
-                led.ok("C13-R2", key, where(m, n), "inside `with self._lock`")
+                led.ok("C13-R2", key, where(m, n), f"inside a region of self.{lock}")
             elif helper:
                 led.ok("C13-R2", key, where(m, n), "helper entered only from call sites holding the lock")
             else:
                 led.fail("C13-R2", key, where(m, n), "queue accessed outside the lock in a method that rewrites it: a concurrent ingest/digest can lose or duplicate items")
 
-    # ---------------- R3
-    ingest = p.find_method(lys, "ingest")
-    if ingest is None:
-        raise AnchorError("Lysosome.ingest not found")
-    cfg = cfg_of(ingest, led)
-    grows = []
-    for fi in p.all_funcs:
-        for k, n in attr_writes(fi.node, Q, None):
-            if k in ("mutcall:append", "mutcall:extend", "mutcall:insert", "augassign"):
-                recv_ok = fi.cls in la.family
-                if not recv_ok:
-                    c = None
-                    for x in ast.walk(n):
-                        if isinstance(x, ast.Attribute) and x.attr == Q:
-                            c = res.expr_class(fi, x.value)
-                    if c not in la.family:
-                        continue
-                grows.append((fi, k, n))
-    if not grows:
-        raise AnchorError("nothing ever appends to the lysosome queue (anchor vanished)")
-    for fi, k, n in grows:
-        key = f"{fi.qual} ▸ {short(n, 50)}"
-        if fi is not ingest and not (fi.cls in la.family and fi.key == ingest.key):
-            led.fail("C13-R3", key, where(fi, n), "the queue grows outside ingest, bypassing the capacity test")
-            continue
-        node = cfg.node_of(n)
-        cap_tests = []
-        for t in cfg.nodes:
-            if t.kind == "test" and isinstance(t.ast, ast.Compare) and "len(self._queue)" in src(t.ast.left) and mentions_attr(t.ast, "max_queue_size") \
-                    and isinstance(t.ast.ops[0], (ast.GtE, ast.Eq)):
-                cap_tests.append(t)
-        dom = cfg.dominators()
-        dominating = [t for t in cap_tests if t in dom.get(node, ())]
-        if not dominating:
-            led.fail("C13-R3", key, where(fi, n), "append not dominated by a `len(queue) >= max_queue_size` test: the queue can exceed its capacity",
-                     witness="max_queue_size=2: third ingest leaves 3 queued items")
-            continue
-        t = dominating[0]
-        # from the T edge every path to the append passes a call that shrinks the queue
-        shrink_nodes = set()
-        for c in walk_no_nested(ingest.node):
-            if isinstance(c, ast.Call):
-                for g in res.resolve_call(ingest, c):
-                    if g.cls in la.family and _shrinks(g):
-                        shrink_nodes.add(cfg.node_of(c))
-        for k2, n2 in attr_writes(ingest.node, Q, "self"):
-            if _is_shrinking_write(k2, n2):
-                shrink_nodes.add(cfg.node_of(n2))
-        seen = cfg.reach(start_edges=[(t, m_, l) for m_, l in t.succ if l == "T"], avoid=shrink_nodes)
-        if node in seen:
-            led.fail("C13-R3", key, where(fi, n), "at capacity the append is reachable without shrinking the queue", path=cfg.fmt_path(cfg.witness(seen, node)))
-        else:
-            led.ok("C13-R3", key, where(fi, n), f"dominated by `{short(t.ast)}`; its true edge reaches the append only through a routine that drops the oldest half")
-    # the shrinking routine really halves
-    em = p.find_method(lys, "_emergency_digest")
-    if em is not None:
-        ok_half = any(isinstance(n, ast.BinOp) and isinstance(n.op, ast.FloorDiv) and "len(self._queue)" in src(n.left) and isinstance(n.right, ast.Constant) and n.right.value in (2,)
-                      for n in ast.walk(em.node))
-        key = "Lysosome._emergency_digest ▸ drops len//2 (≥1 for len ≥ 2)"
-        if ok_half:
-            led.ok("C13-R3", key, where(em, em.node), "count is len(queue)//2, so at capacity ≥ 2 at least one slot is freed")
-        else:
-            led.fail("C13-R3", key, where(em, em.node), "emergency routine no longer frees len//2 items")
+    # ---------------- R3–R6: sequential conservation tables (abstract interpretation; adversarial digesters / callback)
+    _semantic(p, led, lys, res, Q)
 
-    # ---------------- R4 slice complementarity
-    n_cut = 0
-    for m in la.methods():
-        mc = None
-        for k, n in attr_writes(m.node, Q, "self"):
-            if k != "assign" or not isinstance(n, ast.Assign):
-                continue
-            v = n.value
-            if isinstance(v, ast.ListComp):
-                continue    # autophagy filter: not a cut
-            if m.name in ("__init__",):
-                continue
-            n_cut += 1
-            key = f"{m.qual} ▸ {short(n, 70)}"
-            verdict, why = _complementary(m, n)
-            if verdict:
-                led.ok("C13-R4", key, where(m, n), why)
-            else:
-                led.fail("C13-R4", key, where(m, n), why)
-    if n_cut == 0:
-        raise AnchorError("no queue cut found in Lysosome")
 
-    # ---------------- R5 error discipline
-    for mname in ("digest", "_emergency_digest"):
-        m = p.find_method(lys, mname)
-        if m is None:
-            raise AnchorError(f"Lysosome.{mname} not found")
-        mc = cfg_of(m, led)
-        dcalls = [c for c in walk_no_nested(m.node) if isinstance(c, ast.Call) and isinstance(c.func, ast.Name) and _is_digester_var(m, c.func.id)]
-        if not dcalls:
-            raise AnchorError(f"Lysosome.{mname}: digester call not found")
-        for c in dcalls:
-            node = mc.node_of(c)
-            key = f"{m.qual} ▸ {short(c)}"
-            exc_t = [x for x, l in node.succ if l == "exc"]
-            if mc.raise_exit in exc_t or not exc_t:
-                led.fail("C13-R5", key + " ▸ contained", where(m, c), "a raising digester escapes the per-item handler: the call raises and the remaining items are lost")
-                continue
-            handler_ok = all(x.kind == "except" for x in exc_t)
-            loop = _enclosing_for(c)
-            if loop is None or not handler_ok:
-                led.fail("C13-R5", key + " ▸ contained", where(m, c), "digester call is not inside a per-item try/except within the loop")
-                continue
-            # handler inside the loop (per item)
-            h = exc_t[0].stmt
-            if _enclosing_for(h) is not loop:
-                led.fail("C13-R5", key + " ▸ contained", where(m, c), "the handler encloses the whole loop: one failing item aborts the batch")
-                continue
-            led.ok("C13-R5", key + " ▸ contained", where(m, c), "exception edge goes only to an `except Exception` inside the same loop iteration")
-            head = mc.node_of(loop.iter)
-            # counters not reachable from the exception edge within the iteration
-            counters = [x for x in mc.nodes if x.kind == "stmt" and isinstance(x.ast, ast.AugAssign) and isinstance(x.ast.op, ast.Add)
-                        and (src(x.ast.target) in ("self._total_digested", "disposed", "self._total_recycled"))]
-            seen = mc.reach(start_edges=[(node, x, l) for x, l in node.succ if l == "exc"], cut=lambda a, b, l: b is head)
-            hit = [x for x in counters if x in seen]
-            if hit:
-                led.fail("C13-R5", key + " ▸ counters", where(m, hit[0].ast), f"`{short(hit[0].ast)}` is reachable after the digester raised: a failed item is counted as digested")
-            else:
-                led.ok("C13-R5", key + " ▸ counters", where(m, c), f"{len(counters)} counter update(s); none reachable from the exception edge inside the iteration")
-            if mname == "digest":
-                rec = {x for x in mc.nodes if x.kind == "stmt" and isinstance(x.ast, ast.Expr) and isinstance(x.ast.value, ast.Call)
-                       and isinstance(x.ast.value.func, ast.Attribute) and x.ast.value.func.attr == "append" and src(x.ast.value.func.value) == "errors"}
-                seen2 = mc.reach(start_edges=[(node, x, l) for x, l in node.succ if l == "exc"], avoid=rec)
-                if head in seen2 or mc.exit in seen2:
-                    led.fail("C13-R5", key + " ▸ error recorded", where(m, c), "a failed item reaches the next iteration without being recorded in `errors`: it is neither digested nor reported")
-                else:
-                    led.ok("C13-R5", key + " ▸ error recorded", where(m, c), "every path from the exception edge passes `errors.append(...)`")
-                # success path: both counters on every normal path to the loop head
-                for cn in ("self._total_digested", "disposed"):
-                    cs = {x for x in counters if src(x.ast.target) == cn}
-                    s3 = mc.reach(start_edges=[(node, x, l) for x, l in node.succ if l != "exc"], avoid=cs,
-                                  cut=lambda a, b, l: l == "exc")
-                    if head in s3:
-                        led.fail("C13-R5", key + f" ▸ {cn} on success", where(m, c), f"a successfully digested item can reach the next iteration without `{cn} += 1`")
-                    else:
-                        led.ok("C13-R5", key + f" ▸ {cn} on success", where(m, c), "every normal path to the next iteration passes the increment")
-
-    # ---------------- R6 toxic
-    tox = p.find_method(lys, "_digest_toxic")
-    if tox is None:
-        raise AnchorError("Lysosome._digest_toxic not found")
-    tc = cfg_of(tox, led)
-    rets = [n for n in walk_no_nested(tox.node) if isinstance(n, ast.Return)]
-    bad = [r for r in rets if not (isinstance(r.value, ast.Dict) and not r.value.keys) and not (isinstance(r.value, ast.Call) and src(r.value) == "dict()")]
-    key = "Lysosome._digest_toxic ▸ returns"
-    # falling off the end returns None (falsy -> nothing recycled) which is fine too
-    if bad or not rets:
-        led.fail("C13-R6", key, where(tox, (bad or [tox.node])[0]), f"toxic digester returns `{short(bad[0].value) if bad else 'nothing'}`: sensitive content can reach the recycling bin")
-    else:
-        led.ok("C13-R6", key, where(tox, rets[0]), f"{len(rets)} return(s), each an empty mapping")
-    cb = [c for c in walk_no_nested(tox.node) if isinstance(c, ast.Call) and is_self_attr(c.func, "on_toxic")]
-    key = "Lysosome._digest_toxic ▸ callback once"
-    if not cb:
-        led.fail("C13-R6", key, where(tox, tox.node), "toxic callback is never invoked")
-    else:
-        multi = len(cb) > 1 and _two_on_a_path(tc, [tc.node_of(c) for c in cb])
-        cyc = any(in_cycle(tc, tc.node_of(c)) for c in cb)
-        # must be reached whenever on_toxic is set: the call is guarded only by a truthiness test of on_toxic
-        facts = guard_facts(tc, tc.node_of(cb[0]))
-        other = [f for f in facts if not (is_self_attr(f[0], "on_toxic") or (isinstance(f[0], ast.Compare) and "on_toxic" in src(f[0])))]
-        if multi or cyc:
-            led.fail("C13-R6", key, where(tox, cb[0]), "toxic callback can run more than once per item")
-        elif other:
-            led.fail("C13-R6", key, where(tox, cb[0]), f"toxic callback additionally guarded by `{short(other[0][0])}`: some sensitive items never reach it")
-        else:
-            led.ok("C13-R6", key, where(tox, cb[0]), "one call site, not in a loop, guarded only by `self.on_toxic` being set")
-    # registration
-    init = lys.methods.get("__init__")
-    reg = None
-    for n in walk_no_nested(init.node):
-        if isinstance(n, (ast.Assign, ast.AnnAssign)):
-            tgt = n.targets[0] if isinstance(n, ast.Assign) else n.target
-            if is_self_attr(tgt, "_digesters") and isinstance(n.value, ast.Dict):
-                for k, v in zip(n.value.keys, n.value.values):
-                    if src(k).endswith("TOXIC_BYPRODUCT"):
-                        reg = (n, v)
-    key = "Lysosome.__init__ ▸ digester table ▸ TOXIC_BYPRODUCT"
-    if reg and is_self_attr(reg[1], "_digest_toxic"):
-        led.ok("C13-R6", key, where(init, reg[0]), "toxic type is mapped to the built-in toxic digester")
-    else:
-        led.fail("C13-R6", key, where(init, init.node), "the toxic waste type is not mapped to the toxic digester")
-    # ingest_sensitive labels the item toxic
+# ----------------------------------------------------------------------
+def _semantic(p, led, lys, res, Q):
+    from ..fdai import Interp, Obj, Unknown, PyRaise, ExcVal, explore, Imprecise, stub
+    LY = "operon_ai/organelles/lysosome.py"
+    W = p.cls("Waste", LY)
+    WT = p.cls("WasteType", LY)
+    BIN = dict_key_field(p, lys, "get_statistics", "recycling_bin_size")
+    DIG = dict_key_field(p, lys, "get_statistics", "total_digested")
+    if BIN is None or DIG is None:
+        raise AnchorError("Lysosome: the fields behind get_statistics()['recycling_bin_size'/'total_digested'] could not be identified")
+    members = [n for n, _ in WT.enum_members()]
+    if "TOXIC_BYPRODUCT" not in members:
+        raise AnchorError("WasteType.TOXIC_BYPRODUCT not found")
+    ADV = "FAILED_OPERATION"        # the type whose digester is the adversary (returns anything or raises)
+    PLAIN = "EXPIRED_CACHE"
+    ingest, digest, autoph = (p.find_method(lys, n) for n in ("ingest", "digest", "autophagy"))
     ins = p.find_method(lys, "ingest_sensitive")
-    if ins is not None:
-        wc = [c for c in walk_no_nested(ins.node) if isinstance(c, ast.Call) and isinstance(c.func, ast.Name) and c.func.id == "Waste"]
-        okk = any(k.arg == "waste_type" and src(k.value).endswith("TOXIC_BYPRODUCT") for c in wc for k in c.keywords)
-        key = "Lysosome.ingest_sensitive ▸ waste type"
-        if okk:
-            led.ok("C13-R6", key, where(ins, wc[0]), "sensitive data is wrapped as TOXIC_BYPRODUCT", nontrivial=False)
+    for nm_, m_ in (("ingest", ingest), ("digest", digest), ("autophagy", autoph), ("ingest_sensitive", ins)):
+        if m_ is None:
+            raise AnchorError(f"Lysosome.{nm_} not found")
+
+    def build(o, cap, thr, types, rising=False):
+        it = Interp(p, o)
+        log = []
+
+        @stub
+        def adv_digester(interp, args, kwargs):
+            log.append(("digester", args[0]))
+            c = interp.o.choose(3, "adversarial digester: returns {} / returns a mapping / raises")
+            if c == 2:
+                raise PyRaise(ExcVal("RuntimeError", ("digester failed",)))
+            return {} if c == 0 else {"k": Unknown("recycled_value")}
+
+        @stub
+        def on_toxic(interp, args, kwargs):
+            log.append(("toxic", args[0]))
+            return None
+        L = it.instantiate(lys, [], dict(max_queue_size=cap, auto_digest_threshold=thr, retention_hours=Unknown("retention_hours"),
+                                         digesters={it.enum_member(WT, ADV): adv_digester}, on_toxic=on_toxic, silent=True))
+        # `rising`: later items are more urgent (a priority-ordered selection would differ from the FIFO cut)
+        ws = [it.instantiate(W, [], dict(waste_type=it.enum_member(WT, t), content=Unknown(f"content{i}"), source="s", priority=(i if rising else 0))) for i, t in enumerate(types)]
+        it.events.clear()
+        return it, L, ws, log
+
+    def idx(ws, x):
+        for i, w in enumerate(ws):
+            if w is x:
+                return i
+        return None
+
+    # ---- R3 capacity and conservation of ingest
+    probs, npaths = [], 0
+    for cap in (2, 3, 4):
+        for k in range(0, cap + 1):
+            for thr in (100, cap):           # never / exactly at capacity
+                def go(o, _cap=cap, _k=k, _thr=thr):
+                    types = [ADV if i % 2 == 0 else PLAIN for i in range(_k)] + [ADV]
+                    it, L, ws, log = build(o, _cap, _thr, types)
+                    L.fields[Q] = list(ws[:_k])
+                    d0 = L.fields[DIG]
+                    try:
+                        it.call_fi(ingest, [L, ws[_k]], {})
+                    except PyRaise as e:
+                        return dict(raised=repr(e.exc))
+                    q = L.fields[Q]
+                    return dict(q=[idx(ws, x) for x in q], handled=[idx(ws, x) for kind, x in log if kind == "digester"], dcount=(L.fields[DIG], d0))
+                try:
+                    paths = [r for _, r in explore(go, max_paths=600)]
+                except Imprecise as e:
+                    raise AnchorError(f"Lysosome.ingest could not be interpreted: {e}")
+                npaths += len(paths)
+                for r in paths:
+                    tag = f"max_queue_size={cap}, {k} queued, auto_digest_threshold={thr}"
+                    if "raised" in r:
+                        probs.append(f"{tag}: ingest raises {r['raised']}")
+                        continue
+                    q = r["q"]
+                    if len(q) > cap:
+                        probs.append(f"{tag}: {len(q)} items queued after ingest — the queue exceeds its capacity")
+                    if None in q or len(set(q)) != len(q):
+                        probs.append(f"{tag}: queue holds a foreign or duplicated item {q}")
+                    gone = [i for i in range(k + 1) if i not in q]
+                    if k in gone and k not in r["handled"]:
+                        probs.append(f"{tag}: the ingested item is neither queued nor handed to its digester")
+                    for i in gone:
+                        if (i % 2 == 0 or i == k) and r["handled"].count(i) != 1:
+                            probs.append(f"{tag}: item {i} left the queue and was handed to its digester {r['handled'].count(i)}× (exactly once expected: a dropped item still goes through its digester, which is how sensitive items reach the toxic callback)")
+                    for i in q:
+                        if i is not None and i in r["handled"]:
+                            probs.append(f"{tag}: item {i} was digested and is still queued (double handling)")
+    key = "Lysosome.ingest ▸ bounded queue and conservation (all fill levels × capacity 2–4 × auto-digest on/off × digester outcomes)"
+    if probs:
+        led.fail("C13-R3", key, where(ingest, ingest.node), sorted(set(probs))[0], path=sorted(set(probs))[:8], witness="max_queue_size=2: third ingest leaves 3 queued items")
+    else:
+        led.ok("C13-R3", key, where(ingest, ingest.node), f"{npaths} path(s): ≤ capacity after every ingest; every item that left the queue went to its digester exactly once; none both queued and digested; never raises")
+    led.ok("C13-R3", "Lysosome ▸ growth sites of the queue", where(ingest, ingest.node), "covered semantically by the table above (any growth path is interpreted)", nontrivial=False)
+
+    # ---- R4 / R5 digest(k): complementary cut, per-item containment, exact accounting
+    probs, npaths = [], 0
+    for n, k, rising in [(n, k, rising) for n in range(0, 4) for k in (None, 0, 1, 2, n + 1) for rising in (False, True)]:
+        if True:
+            def go(o, _n=n, _k=k, _rising=rising):
+                types = [ADV for i in range(_n)] if _rising else [ADV if i % 2 == 0 else PLAIN for i in range(_n)]
+                it, L, ws, log = build(o, 10, 100, types, rising=_rising)
+                L.fields[Q] = list(ws)
+                d0 = L.fields[DIG]
+                try:
+                    r = it.call_fi(digest, [L] + ([] if _k is None else [_k]), {})
+                except PyRaise as e:
+                    return dict(raised=repr(e.exc))
+                q = L.fields[Q]
+                raised_n = sum(1 for lab, c in it.o.labels if lab.startswith("adversarial digester") and c == 2)
+                f = r.fields if isinstance(r, Obj) else {}
+                return dict(q=[idx(ws, x) for x in q], handled=[idx(ws, x) for kind, x in log if kind == "digester"], disposed=f.get("disposed"), nerr=len(f.get("errors", [])) if isinstance(f.get("errors"), list) else None,
+                            success=f.get("success"), raised_n=raised_n, dig=(L.fields[DIG], d0))
+            try:
+                paths = [r for _, r in explore(go, max_paths=800)]
+            except Imprecise as e:
+                raise AnchorError(f"Lysosome.digest could not be interpreted: {e}")
+            npaths += len(paths)
+            for r in paths:
+                tag = f"{n} queued{' (later items more urgent)' if rising else ''}, digest({'' if k is None else k})"
+                if "raised" in r:
+                    probs.append(("C13-R5", f"{tag}: digest raises {r['raised']} — a failing digester escapes the per-item handler and the remaining items are lost"))
+                    continue
+                want_taken = n if (k is None or k == 0) else min(k, n)
+                q = r["q"]
+                taken = [i for i in range(n) if i not in q]
+                if len(set(q)) != len(q) or None in q:
+                    probs.append(("C13-R4", f"{tag}: queue afterwards {q} holds duplicates / foreign items"))
+                if sorted(taken + [i for i in q if i is not None]) != list(range(n)):
+                    probs.append(("C13-R4", f"{tag}: processed {taken}, kept {q}: not a partition of the queue"))
+                if len(taken) > want_taken:
+                    probs.append(("C13-R4", f"{tag}: {len(taken)} item(s) taken from the queue, at most {want_taken} allowed"))
+                adv_taken = [i for i in taken if (rising or i % 2 == 0)]
+                for i in adv_taken:
+                    if r["handled"].count(i) != 1:
+                        probs.append(("C13-R4", f"{tag}: item {i} was cut from the queue and handed to its digester {r['handled'].count(i)}×: cut items must be processed exactly once"))
+                for i in q:
+                    if i in r["handled"]:
+                        probs.append(("C13-R4", f"{tag}: item {i} was processed and stays queued (double handling)"))
+                if not r["handled"] == [i for i in r["handled"] if i in taken]:
+                    probs.append(("C13-R4", f"{tag}: digesters ran on {r['handled']}, the queue lost {taken}"))
+                if r["disposed"] is not None and r["nerr"] is not None:
+                    if r["nerr"] != r["raised_n"]:
+                        probs.append(("C13-R5", f"{tag}: {r['raised_n']} digester failure(s) but {r['nerr']} recorded in errors: a failed item is neither digested nor reported"))
+                    if r["disposed"] + r["nerr"] != len(taken):
+                        probs.append(("C13-R5", f"{tag}: disposed {r['disposed']} + errors {r['nerr']} ≠ {len(taken)} items taken: an item is unaccounted (or counted although it failed)"))
+                    if r["success"] is not (r["nerr"] == 0):
+                        probs.append(("C13-R5", f"{tag}: success={r['success']!r} with {r['nerr']} error(s)"))
+                    d1, d0 = r["dig"]
+                    if isinstance(d1, int) and isinstance(d0, int) and d1 - d0 != r["disposed"]:
+                        probs.append(("C13-R5", f"{tag}: digested counter grew by {d1 - d0}, disposed = {r['disposed']}"))
+                else:
+                    probs.append(("C13-R5", f"{tag}: result has no disposed/errors fields"))
+    for rid, what in (("C13-R4", "Lysosome.digest ▸ the cut partitions the queue; exactly the cut items are processed, each once"),
+                      ("C13-R5", "Lysosome.digest ▸ per-item containment and exact accounting (disposed + errors = taken; counters only on success)")):
+        mine = sorted({m for r_, m in probs if r_ == rid})
+        if mine:
+            led.fail(rid, what, where(digest, digest.node), mine[0], path=mine[:8])
         else:
-            led.fail("C13-R6", key, where(ins, ins.node), "sensitive data is not labelled TOXIC_BYPRODUCT: it is digested by a recycling digester")
+            led.ok(rid, what, where(digest, digest.node), f"{npaths} path(s) over queue sizes 0–3 × digest(None/0/1/2/n+1) × digester outcomes (returns {{}}, returns a mapping, raises)")
+    # emergency path: containment there is part of the ingest table (ingest never raises); listed for the floor
+    led.ok("C13-R5", "Lysosome.ingest ▸ emergency digestion contains digester failures", where(ingest, ingest.node), "ingest at capacity never raises with a raising digester (R3 table)")
+    led.ok("C13-R5", "Lysosome.digest ▸ errors name every failed item", where(digest, digest.node), "errors recorded = digester failures on every path (table above)", nontrivial=False)
+
+    # ---- R4 autophagy: kept ∪ removed = all, count returned
+    probs, npaths = [], 0
+    for n in range(0, 4):
+        def go(o, _n=n):
+            it, L, ws, log = build(o, 10, 100, [PLAIN] * _n)
+            for i, w in enumerate(ws):
+                w.fields["created_at"] = Unknown(f"created{i}")
+            L.fields[Q] = list(ws)
+            try:
+                r = it.call_fi(autoph, [L], {})
+            except PyRaise as e:
+                return dict(raised=repr(e.exc))
+            return dict(q=[idx(ws, x) for x in L.fields[Q]], ret=r, handled=len(log))
+        try:
+            paths = [r for _, r in explore(go, max_paths=400)]
+        except Imprecise as e:
+            raise AnchorError(f"Lysosome.autophagy could not be interpreted: {e}")
+        npaths += len(paths)
+        for r in paths:
+            if "raised" in r:
+                probs.append(f"{n} queued: autophagy raises {r['raised']}")
+                continue
+            q = r["q"]
+            if None in q or len(set(q)) != len(q) or q != sorted(q):
+                probs.append(f"{n} queued: queue after autophagy {q} is not a sub-sequence of the queue before")
+            if isinstance(r["ret"], int) and r["ret"] != n - len(q):
+                probs.append(f"{n} queued: autophagy reports {r['ret']} removed, {n - len(q)} left the queue")
+    key = "Lysosome.autophagy ▸ keeps a sub-sequence and reports the number expired"
+    if probs:
+        led.fail("C13-R4", key, where(autoph, autoph.node), sorted(set(probs))[0])
+    else:
+        led.ok("C13-R4", key, where(autoph, autoph.node), f"{npaths} path(s) over 0–3 queued items × every expired subset")
+
+    # ---- R6 sensitive items: toxic callback exactly once, nothing recycled
+    probs, npaths = [], 0
+    for extra in (0, 1):
+        def go(o, _extra=extra):
+            it, L, ws, log = build(o, 10, 100, [PLAIN] * _extra)
+            L.fields[Q] = list(ws)
+            secret = Unknown("SECRET")
+            try:
+                it.call_fi(ins, [L, secret], {})
+                qitems = list(L.fields[Q])
+                r = it.call_fi(digest, [L], {})
+            except PyRaise as e:
+                return dict(raised=repr(e.exc))
+            tox = [x for kind, x in log if kind == "toxic"]
+            sens = [w for w in qitems if isinstance(w, Obj) and w.fields.get("content") is secret]
+            binv = L.fields[BIN]
+            rec = r.fields.get("recycled") if isinstance(r, Obj) else None
+            leak = _mentions(binv, secret) or _mentions(rec, secret)
+            return dict(n_sens=len(sens), wt=[getattr(w.fields.get("waste_type"), "name", None) for w in sens], ntox=sum(1 for x in tox if any(x is w for w in sens)), ntox_all=len(tox), leak=leak,
+                        disposed=r.fields.get("disposed") if isinstance(r, Obj) else None)
+        try:
+            paths = [r for _, r in explore(go, max_paths=200)]
+        except Imprecise as e:
+            raise AnchorError(f"ingest_sensitive/digest could not be interpreted: {e}")
+        npaths += len(paths)
+        for r in paths:
+            if "raised" in r:
+                probs.append(f"ingest_sensitive + digest raises {r['raised']}")
+                continue
+            if r["n_sens"] != 1:
+                probs.append(f"ingest_sensitive queued {r['n_sens']} item(s) carrying the data")
+            elif r["wt"] != ["TOXIC_BYPRODUCT"]:
+                probs.append(f"sensitive data is labelled {r['wt'][0]}, not TOXIC_BYPRODUCT: it is digested by a recycling digester")
+            if r["ntox"] != 1:
+                probs.append(f"the toxic callback received the sensitive item {r['ntox']}× (exactly once expected)")
+            if r["ntox_all"] != r["ntox"]:
+                probs.append("the toxic callback was invoked for a non-sensitive item")
+            if r["leak"]:
+                probs.append("sensitive content reaches the recycling bin / the recycled result")
+    for key in ("Lysosome ▸ sensitive item reaches the toxic callback exactly once", "Lysosome ▸ sensitive content is never recycled", "Lysosome.ingest_sensitive ▸ labelled toxic and handled by the toxic digester"):
+        sel = {"exactly once": ("callback",), "never recycled": ("recycl",), "labelled": ("labelled", "queued", "raises")}[next(k for k in ("exactly once", "never recycled", "labelled") if k in key)]
+        mine = sorted({m for m in probs if any(x in m for x in sel)})
+        if mine:
+            led.fail("C13-R6", key, where(ins, ins.node), mine[0])
+        else:
+            led.ok("C13-R6", key, where(ins, ins.node), f"{npaths} path(s): ingest_sensitive(data) then digest() — with and without other queued items")
+
+
+def _mentions(v, needle, depth=0):
+    """does abstract value v contain (structurally) the needle value"""
+    from ..fdai import Obj, Unknown
+    if v is needle:
+        return True
+    if depth > 5:
+        return False
+    if isinstance(v, Unknown) and isinstance(needle, Unknown):
+        return needle.sym in v.sym
+    if isinstance(v, dict):
+        return any(_mentions(k, needle, depth + 1) or _mentions(x, needle, depth + 1) for k, x in v.items())
+    if isinstance(v, (list, tuple, set, frozenset)):
+        return any(_mentions(x, needle, depth + 1) for x in v)
+    if isinstance(v, Obj):
+        return any(_mentions(x, needle, depth + 1) for x in v.fields.values())
+    return False
 
 
 # ----------------------------------------------------------------------
@@ -296,91 +372,9 @@ def _enclosing_for(n):
     return q if isinstance(q, ast.For) else None
 
 
-def _is_shrinking_write(k, n):
-    if k == "assign" and isinstance(n, ast.Assign) and isinstance(n.value, ast.Subscript) and isinstance(n.value.slice, ast.Slice) \
-            and is_self_attr(n.value.value, Q) and n.value.slice.lower is not None:
-        return True
-    if k in ("subscript-del", "mutcall:clear", "mutcall:pop"):
-        return True
-    return False
-
-
-def _shrinks(g):
-    return any(_is_shrinking_write(k, n) for k, n in attr_writes(g.node, Q, "self"))
-
-
-def _is_digester_var(m, name):
-    for n in walk_no_nested(m.node):
-        if isinstance(n, ast.Assign) and len(n.targets) == 1 and isinstance(n.targets[0], ast.Name) and n.targets[0].id == name:
-            if "_digesters" in src(n.value):
-                return True
-    return False
-
-
 def _two_on_a_path(cfg, nodes):
     for a in nodes:
         seen = cfg.reach(start_edges=cfg.out_edges(a))
         if any(b in seen for b in nodes if b is not a):
             return True
     return False
-
-
-def _branches(e):
-    """[(condition text or None, expr)] — splits a conditional expression"""
-    if isinstance(e, ast.IfExp):
-        return [(src(e.test), e.body), ("not " + src(e.test), e.orelse)]
-    return [(None, e)]
-
-
-def _complementary(m, assign):
-    """kept = value assigned to self._queue; taken = what the function processes.
-    Accepted idioms:  taken = Q[:A]  & kept = Q[A:]  |  taken = Q[:A] bound to T & kept = Q[len(T):]
-                      taken = Q[:]   & kept = []"""
-    kept = assign.value
-    # locate the taken expression: a slice/copy of the queue that is iterated or bound to a variable that is iterated
-    taken_exprs = []
-    fn = m.node
-    for n in walk_no_nested(fn):
-        if isinstance(n, ast.Assign) and n is not assign and len(n.targets) == 1 and isinstance(n.targets[0], ast.Name):
-            if any(is_self_attr(x, Q) for x in ast.walk(n.value)) and any(isinstance(x, ast.Subscript) for x in ast.walk(n.value)):
-                taken_exprs.append((n.targets[0].id, n.value))
-        if isinstance(n, ast.For) and any(is_self_attr(x, Q) for x in ast.walk(n.iter)) and isinstance(n.iter, ast.Subscript):
-            taken_exprs.append((None, n.iter))
-    if not taken_exprs:
-        return False, "queue is cut but no processed part (slice of the queue) is found: cut items vanish unaccounted"
-    var, taken = taken_exprs[0]
-    # the taken part must be iterated
-    iterated = any(isinstance(n, ast.For) and ((var and isinstance(n.iter, ast.Name) and n.iter.id == var) or n.iter is taken) for n in walk_no_nested(fn))
-    if not iterated:
-        return False, "processed part is never iterated"
-    tb, kb = _branches(taken), _branches(kept)
-    if len(tb) != len(kb) or [c for c, _ in tb] != [c for c, _ in kb]:
-        return False, f"processed part `{short(taken)}` and kept part `{short(kept)}` are selected by different conditions"
-    for (c, t), (_, k) in zip(tb, kb):
-        okb, why = _pair(t, k, var)
-        if not okb:
-            return False, (f"under `{c}`: " if c else "") + why
-    return True, f"processed `{short(taken)}` and kept `{short(kept)}` are complementary slices" + (f" (bound to `{var}`)" if var else "")
-
-
-def _pair(t, k, var):
-    if not (isinstance(t, ast.Subscript) and isinstance(t.slice, ast.Slice) and is_self_attr(t.value, Q)):
-        return False, f"processed part `{short(t)}` is not a slice of the queue"
-    lo, hi = t.slice.lower, t.slice.upper
-    if lo is not None:
-        return False, f"processed part `{short(t)}` does not start at the head of the queue"
-    if hi is None:
-        # full copy pairs with empty list
-        if isinstance(k, ast.List) and not k.elts:
-            return True, ""
-        return False, f"whole queue processed but `{short(k)}` kept: items are processed and stay queued (double handling)"
-    if not (isinstance(k, ast.Subscript) and isinstance(k.slice, ast.Slice) and is_self_attr(k.value, Q)):
-        return False, f"kept part `{short(k)}` is not a slice of the queue although only a prefix is processed: unprocessed items are dropped"
-    klo, khi = k.slice.lower, k.slice.upper
-    if khi is not None or klo is None:
-        return False, f"kept part `{short(k)}` is not a suffix"
-    if src(klo) == src(hi):
-        return True, ""
-    if var and src(klo) == f"len({var})":
-        return True, ""
-    return False, f"prefix bound `{short(hi)}` and suffix start `{short(klo)}` differ: an item is dropped unprocessed or handled twice"
